@@ -178,6 +178,15 @@ Definition run (c : val) : val :=
                  | Some xs => observe (bytes * list val) fst (unpickle xs) SvPickle p (Z.to_nat m) xs f0
                  | None => VBad
                  end
+          (* 2, 3: the same savers, the target given as a file:// URL (no difference for the model) *)
+          | 2 => match dec_text_parts parts with
+                 | Some xs => observe (list bytes) render_text decode_text_val SvText p (Z.to_nat m) xs f0
+                 | None => VBad
+                 end
+          | 3 => match dec_pickle_parts parts with
+                 | Some xs => observe (bytes * list val) fst (unpickle xs) SvPickle p (Z.to_nat m) xs f0
+                 | None => VBad
+                 end
           | _ => VBad
           end
       | _, _, _ => VBad
